@@ -8,11 +8,14 @@ package c02
 import (
 	"crypto"
 	"crypto/ed25519"
+	"crypto/tls"
 	"crypto/x509"
 	"crypto/x509/pkix"
+	"encoding/base64"
 	"encoding/json"
 	"fmt"
 	"math/big"
+	"net"
 	"strings"
 	"time"
 
@@ -38,7 +41,7 @@ type dim struct {
 
 var dims = []dim{
 	{"holds-key", []string{"yes", "no"}},
-	{"cert", []string{"valid-root", "expired-root", "foreign-root", "self-signed", "server-auth"}},
+	{"cert", []string{"valid-root", "expired-root", "foreign-root", "self-signed", "server-auth", "own-ca-cert-then-victims-chain", "own-leaf-then-victims-chain"}},
 	{"record", []string{"present", "removed"}},
 	{"nonce-sig", []string{"own-key", "other-registered-key", "unregistered-key", "missing"}},
 	{"skip-flag", []string{"unset", "set"}},
@@ -78,7 +81,9 @@ type world struct {
 	selfCert  []byte
 	saLeaf    [2][]byte // server-auth leaf + ca
 	saKey     ed25519.PrivateKey
-	validIdx  int // bundle index of the chain under the still-valid root
+	ownCA     []byte // self-signed CA-flagged certificate of the adversary's key
+	ownLeaf   []byte // self-signed non-CA certificate of the adversary's key
+	validIdx  int    // bundle index of the chain under the still-valid root
 	prefValid string
 }
 
@@ -132,6 +137,22 @@ func newWorld(seed int64) *world {
 	w.selfCert, err = x509.CreateCertificate(harness.DetRand("self"), tmpl, tmpl, k1.Pub, k1.Priv)
 	if err != nil {
 		panic(err)
+	}
+	for i, isCA := range []bool{true, false} {
+		ot := &x509.Certificate{SubjectKeyId: k1.Pkix, AuthorityKeyId: k1.Pkix, ExtKeyUsage: []x509.ExtKeyUsage{x509.ExtKeyUsageClientAuth}, SerialNumber: big.NewInt(int64(20 + i)),
+			NotBefore: connectTime.Add(-time.Hour), NotAfter: connectTime.Add(time.Hour), BasicConstraintsValid: true, IsCA: isCA, Subject: pkix.Name{CommonName: "adversary"}, KeyUsage: x509.KeyUsageDigitalSignature}
+		if isCA {
+			ot.KeyUsage |= x509.KeyUsageCertSign
+		}
+		der, err := x509.CreateCertificate(harness.DetRand("own"), ot, ot, w.other.Public(), w.other)
+		if err != nil {
+			panic(err)
+		}
+		if isCA {
+			w.ownCA = der
+		} else {
+			w.ownLeaf = der
+		}
 	}
 	// a server-auth certificate legitimately minted by this server for K1's key
 	resp, err := nodetls.GenerateServerCertificates(harness.Ctx, w.st, &types.GenerateServerCertificatesRequest{CertificatePublicKeyPkix: k1.Pkix, SkipVerification: true, Nonce: harness.Bytes("sa", 32)})
@@ -201,6 +222,14 @@ func (w *world) build(v vector, nonceLabel string) (*harness.AuthClient, nodeenr
 		c.Chain, key = [][]byte{w.selfCert}, k1.Priv
 	case 4:
 		c.Chain, key = [][]byte{w.saLeaf[0], w.saLeaf[1]}, w.saKey
+	case 5, 6:
+		// the adversary proves possession of its own throw-away key (first
+		// certificate) and appends the victim's public chain behind it
+		own := w.ownCA
+		if v[1] == 6 {
+			own = w.ownLeaf
+		}
+		c.Chain, key = [][]byte{own, b[w.validIdx].CertificateDer, b[w.validIdx].CaCertificateDer}, w.other
 	}
 	if v[0] == 1 {
 		key = w.other
@@ -213,9 +242,9 @@ func (w *world) build(v vector, nonceLabel string) (*harness.AuthClient, nodeenr
 		c.Preference = "garbage-preference"
 	}
 	// reference predicate
-	possession := v[0] == 0
-	chain := v[1] == 0 || v[1] == 4
-	var lookup []string // keys of the records the property says are consulted
+	possession := v[0] == 0 || v[1] >= 5 // kinds 5/6 always prove possession of their own first certificate
+	chain := v[1] == 0 || v[1] == 4      // the certificate whose key was proven chains to a currently valid root
+	var lookup []string                  // keys of the records the property says are consulted
 	switch {
 	case v[5] == 1:
 		if v[2] == 0 {
@@ -304,6 +333,70 @@ func (w *world) oneVector(v vector, r *engine.Report) (string, string) {
 	} else if may {
 		r.Outcome("entitled-but-rejected")
 	}
+	return "", ""
+}
+
+// oneFetch sends a well-formed fetch request with the given ALPN arrangement;
+// whatever the answer, Accept must never hand the connection to the application.
+func (w *world) oneFetch(arr string, authorized bool, r *engine.Report) (string, string) {
+	vclock.Freeze(connectTime)
+	st := w.st.Clone()
+	k, e := harness.NewCertKey("fetcher", w.seed), harness.NewEncKey("fetcher-enc", w.seed)
+	nonce := harness.Bytes("fetch-nonce", 32)
+	req := harness.SignedRequest(harness.Info(k, e, nonce), k)
+	if authorized {
+		if _, err := registration.AuthorizeNode(harness.Ctx, st, req); err != nil {
+			panic(err)
+		}
+	}
+	raw, _ := proto.Marshal(req)
+	fp, err := nodetls.BreakIntoNextProtos(nodeenrollment.FetchNodeCredsNextProtoV1Prefix, base64.RawStdEncoding.EncodeToString(raw))
+	if err != nil {
+		panic(err)
+	}
+	var protos []string
+	switch arr {
+	case "fetch-only":
+		protos = fp
+	case "application-proto-first":
+		protos = append([]string{"h2"}, fp...)
+	case "application-proto-last":
+		protos = append(append([]string{}, fp...), "h2")
+	case "preference-first":
+		protos = append([]string{nodeenrollment.CertificatePreferenceV1Prefix + w.prefValid}, fp...)
+	case "unknown-library-like-first":
+		protos = append([]string{"v1-nodee-something-else"}, fp...)
+	}
+	rs, serr := harness.Serve(harness.ServerConfig{Storage: st}, func(addr string) {
+		raw, err := net.DialTimeout("tcp", addr, 10*time.Second)
+		if err != nil {
+			return
+		}
+		defer raw.Close()
+		tc := tls.Client(raw, &tls.Config{MinVersion: tls.VersionTLS13, InsecureSkipVerify: true, NextProtos: protos,
+			GetClientCertificate: func(*tls.CertificateRequestInfo) (*tls.Certificate, error) {
+				return &tls.Certificate{Certificate: [][]byte{harness.SelfSignedCert(k, nodeenrollment.CommonDnsName)}, PrivateKey: k.Priv}, nil
+			}})
+		tc.SetDeadline(time.Now().Add(30 * time.Second))
+		if tc.Handshake() == nil {
+			var b [1]byte
+			tc.Read(b[:])
+		}
+	})
+	defer harness.CloseAll(rs)
+	if serr != nil {
+		r.InfraError(serr.Error())
+		return "", ""
+	}
+	for _, a := range rs {
+		if a.Panic != "" {
+			return "panic:fetch", fmt.Sprintf("fetch client (%s, authorized=%v): Accept panicked: %s", arr, authorized, a.Panic)
+		}
+		if a.Err == nil && a.Conn != nil {
+			return "fetch-connection-returned:" + arr, fmt.Sprintf("a credential-fetch handshake (ALPN arrangement %q, node authorized=%v) yielded a connection from Accept (negotiated %q, authenticated=%v): the peer proved nothing", arr, authorized, a.Proto, a.Authenticated)
+		}
+	}
+	r.Branch("fetch-never-returned")
 	return "", ""
 }
 
@@ -521,7 +614,7 @@ func allVectors(maxDishonest int) []vector {
 }
 
 func run(c *engine.Ctx, r *engine.Report) {
-	r.Need("authenticated", "honest-authenticated", "rejected", "mutation-rejected", "history:authenticated", "history:rejected")
+	r.Need("authenticated", "honest-authenticated", "rejected", "mutation-rejected", "history:authenticated", "history:rejected", "fetch-never-returned")
 	w := newWorld(c.Seed)
 	max := 3
 	if c.Thorough() {
@@ -549,6 +642,20 @@ func run(c *engine.Ctx, r *engine.Report) {
 		r.Nontrivial(1)
 		if i%997 == 1 {
 			r.Sample(v.String())
+		}
+	}
+	for _, arr := range []string{"fetch-only", "application-proto-first", "application-proto-last", "preference-first", "unknown-library-like-first"} {
+		for _, authd := range []bool{false, true} {
+			i++
+			if !c.Mine(i) {
+				continue
+			}
+			r.Eval(1)
+			if sig, msg := w.oneFetch(arr, authd, r); sig != "" {
+				r.Violate(sig, msg, kase{Kind: "fetch", Path: []string{arr, fmt.Sprint(authd)}, Seed: c.Seed})
+				continue
+			}
+			r.Nontrivial(1)
 		}
 	}
 	raw, _ := w.honestRaw()
@@ -590,6 +697,8 @@ func replay(c *engine.Ctx, raw json.RawMessage) (string, bool) {
 		sig, msg = w.oneVector(k.Vector, r)
 	case "flip", "trunc":
 		sig, msg = w.oneMutation(k.Kind, k.Pos, r)
+	case "fetch":
+		sig, msg = w.oneFetch(k.Path[0], k.Path[1] == "true", r)
 	case "history":
 		h := hstate{st: harness.NewMemStore()}
 		vclock.Freeze(harness.T0)
@@ -613,7 +722,7 @@ func init() {
 	engine.Register(&engine.CheckDef{
 		ID:    "C02",
 		Level: "exploration",
-		Rule: "hand-built TLS 1.3 clients against the real InterceptingListener over a loopback socket, 15 virtual days after enrollment (one root expired, one valid): product of 9 capability dimensions (holds key 2 x certificate 5 x record 2 x nonce signature 4 x skip flag 2 x node-id hint 4 x client state 3 x certificate preference 3 x common name 2 = 57600; quick: all vectors with at most 3 dishonest coordinates); every single-bit flip and truncation of an honest ALPN-carried request; BFS over register / remove / connect of two nodes with the real dialer; oracle: authenticated => possession proof, chain to a currently valid root, nonce (and state) signed by the key of a record the property says is consulted; " +
+		Rule: "hand-built TLS 1.3 clients against the real InterceptingListener over a loopback socket, 15 virtual days after enrollment (one root expired, one valid): product of 9 capability dimensions (holds key 2 x certificate 7 x record 2 x nonce signature 4 x skip flag 2 x node-id hint 4 x client state 3 x certificate preference 3 x common name 2 = 80640; quick: all vectors with at most 3 dishonest coordinates); every single-bit flip and truncation of an honest ALPN-carried request; well-formed fetch handshakes (authorized and not) in 5 ALPN arrangements, none of which may yield a connection; BFS over register / remove / connect of two nodes with the real dialer; oracle: authenticated => possession proof, chain to a currently valid root, nonce (and state) signed by the key of a record the property says is consulted; " +
 			"distinct_nontrivial counts handshakes (distinct by construction) that completed on the server side with a verdict",
 		Assumptions: []string{"forged = signed with another pool key; captured signatures are modelled by giving the adversary the signature but not the TLS key", "the honest vector must authenticate (vacuity guard), other entitled vectors may be rejected"},
 		Shards:      func(c *engine.Ctx) int { return 16 },
